@@ -6,6 +6,10 @@ import os
 HERE = os.path.dirname(os.path.dirname(os.path.abspath(__file__)))
 
 CHECKS = {
+ "C01": dict(category="proof",
+   text="Coq proof of compile correctness: for every program of the fragment (arithmetic, comparison, short-circuit booleans, selectors, select with default, functions closing over their definition-time scope, copy with self, modules with parameters / out expressions / mod.this, map/filter/reduce over lists, tuples and strings, both format forms, ranges, casts, in/is, fail) if the definitional semantics (written from the reference) binds values then the compiled program run by the VM binds related values, and if the semantics fails the compiled program fails; the compiled code never reaches a Bug outcome (unreachable!/stack underflow/invalid jump). Proved by a code-in-context simulation with a logical relation for closures and modules, in six named milestones. Tied to the real code three ways on every generated program: the model translator's opcode sequence equals the real translator's (K1), the VM model's outcome equals the build's (K2), and the definitional semantics' bindings equal the build's (K3, the property itself)",
+   note="import/include/convert/out/assert/regex, float text and float %% are outside the model (the semantics answers Unsup; counted, not compared); floats are Flocq binary64 in the runner only, theorems hold for any float interface; positions are dropped in the model",
+   technique="Coq proof (simulation: big-step semantics vs translated code on a stack VM, fuel-indexed, logical relation for closures) + three-way correspondence"),
  "C02": dict(category="proof",
    text="Coq theorems about a model of the precedence climber (total; sound w.r.t. the table: right children strictly tighter, left children at least as tight; a chain has exactly one such tree; shape independent of operands) re-checked on every run against tables regenerated from src/ast/mod.rs and from the reference docs; the algorithm model is tied to the real parser by exhaustive comparison on all 111,150 chains of 1..4 operators plus seeded random chains up to 10 operators with parentheses and compound operands",
    note="trusts the Coq kernel, the T1 translator (differentially tested by the exhaustive sweep), extraction (ExtrOcamlBasic/ExtrOcamlString), and that operands are atoms (operator tokenisation is C11's)",
